@@ -60,6 +60,7 @@ DoEnd ==
                     /\ \A k \in DOMAIN g2 : g2[k].raw = g3[k]         \* two generators, call by call
                     /\ Cardinality(raws2) = Line.total               \* pairwise distinct
                     /\ raws2 = raws                                  \* the concurrent run issued the same ids
+                    /\ raws \cap {Line.early[k] : k \in DOMAIN Line.early} = {}   \* none of the ids a generator at counter 0 issues first
          okmodel == /\ \A k \in DOMAIN g2 : g2[k].id = k - 1            \* call number k gets v5(ns, k-1)
                     /\ Range(got) = {k - 1 : k \in 1..Line.total}
      IN sum' = Add(IF okmodel \/ ex.drift # 0 THEN sum ELSE Drift(sum), IF okrepro THEN {} ELSE {Fail("C14")})
